@@ -193,6 +193,10 @@ class FoldInterp(object):
         raise Undecided('numeric value expected', node)
 
     def _expr(self, e, env):
+        if isinstance(e, ast.Call) and (call_name(e) or '').split('.')[-1] in ('parse', 'parse_number') and len(e.args) == 1 and is_name(e.args[0], self.val) and self.val in env:
+            # the numeric parser applied where the value is used (this path converts; another path may not)
+            self.parsed = True
+            return env[self.val]
         if isinstance(e, ast.Constant) and isinstance(e.value, (int, float)) and not isinstance(e.value, bool):
             return Rat.const(e.value if isinstance(e.value, int) else int(e.value) if float(e.value).is_integer() else e.value)
         if isinstance(e, ast.Name):
@@ -328,7 +332,7 @@ def rule_ag_fold(cx, rep, port):
             rep.violated(name + ' absence test', tt, 'the stored value is tested for absence by truthiness (`{}`): a stored 0 (or empty string) is treated as "no value yet", so e.g. MIN over 3, 0, 5 forgets the 0'.format(node_text(tt, 60)))
             continue
         if name not in ('CountAggregator', 'ArrayAggAggregator', 'AnyValueAggregator') and not (fi_a.parsed and fi_p.parsed):
-            rep.violated(name + ' conversion', inc, 'the argument is not converted with the numeric parser before it is accumulated: numeric strings are combined as strings')
+            rep.violated(name + ' conversion', inc, 'the argument is not converted with the numeric parser before it is accumulated ({}): numeric strings are combined as strings, and a non-numeric value no longer raises the error that names its record'.format('first value of a group' if not fi_a.parsed else 'later values of a group'))
             continue
         if name == 'AnyValueAggregator':
             ok = len(first) == 1 and isinstance(first[0], Rat) and first[0].equals(V) and step == []
@@ -548,3 +552,78 @@ def rule_ag_parse(cx, rep, port='js'):
             rep.violated('parse_number', q.node, 'parse_number returns `{}` on a path that has not tested it with isNaN: a NaN (e.g. from `MAX(a2 * 10)` over a non-numeric field) is accumulated silently instead of raising the conversion error at that record'.format(node_text(q.value, 40)))
             return
     rep.decide(n >= 1 and raises, 'parse_number', fd, 'every returned value was tested with isNaN; NaN raises the runtime error', 'parse_number has no path raising the conversion error')
+
+
+def rule_ag_numparse(cx, rep, port='py'):
+    """python NumHandler.parse: an integer string becomes an int by int(text) itself - never by way of a float (a double holds
+    integers exactly only up to 2**53, so ids / nanosecond timestamps would be rounded and MIN/MAX/SUM/MEDIAN no longer exact) -
+    and float(text) is tried only after int(text) was, or once the column is known not to be all-integer."""
+    from .. import cfg as cfgmod
+    from ..snippet import inline_single_defs
+    p = cx.port('py')
+    cls = p.cls('rbql_engine', 'NumHandler')
+    ms = [m for m in cls.body if isinstance(m, ast.FunctionDef) and m.name == 'parse']
+    if not ms or len(ms[0].args.args) < 2:
+        raise Undecided('anchor vanished: NumHandler.parse(self, val)', cls)
+    fd = ms[0]
+    val = fd.args.args[1].arg
+    convs = [c for c in walk_no_nested(fd) if isinstance(c, ast.Call) and isinstance(c.func, ast.Name) and c.func.id in ('int', 'float') and len(c.args) >= 1]
+    ints = [c for c in convs if c.func.id == 'int']
+    floats = [c for c in convs if c.func.id == 'float']
+
+    def through_float(e):
+        r = inline_single_defs(e, fd, depth=3, any_value=True)
+        return any(isinstance(x, ast.Call) and isinstance(x.func, ast.Name) and x.func.id == 'float' for x in ast.walk(r)) or any(isinstance(x, ast.Call) and isinstance(x.func, ast.Attribute) and x.func.attr in ('is_integer', 'as_integer_ratio') for x in ast.walk(r))
+    lossy = [c for c in ints if through_float(c.args[0])]
+    if lossy:
+        rep.violated('exact integers', lossy[0], '`{}` makes an int out of a value that went through float(): integer strings above 2**53 are rounded, so MIN/MAX/SUM/MEDIAN over them are not exact'.format(node_text(lossy[0], 60)))
+        return
+    direct = [c for c in ints if is_name(inline_single_defs(c.args[0], fd, depth=2), val)]
+    if not direct:
+        if floats:
+            rep.violated('exact integers', floats[0], 'NumHandler.parse never applies int() to the text itself: every integer string is converted through float() and loses exactness above 2**53')
+        else:
+            rep.undecided('exact integers', fd, 'no int()/float() conversion of the value recognised in NumHandler.parse')
+        return
+    rep.holds('exact integers', direct[0], 'integer strings are converted with int(text) ({} site(s)), never through float()'.format(len(direct)))
+    # float(text) only behind the int attempt or the `is_int` test
+    g = cfgmod.CFG(fd)
+    gate = lambda n: cfgmod.node_contains(n, lambda x: any(x is d for d in direct)) or (n.kind == 'test' and 'self.is_int' in {dotted(y) for y in ast.walk(n.ast)})   # noqa: E731
+    for f in floats:
+        fn = [n for n in g.nodes if cfgmod.node_contains(n, lambda x, f=f: x is f)]
+        if not fn:
+            continue
+        if any(g.exists_path(g.entry, lambda x, n=n: x is n, avoid=gate) for n in fn):
+            rep.violated('int before float', f, 'float(text) can be reached without int(text) having been tried and without the all-integer flag having been consulted: integer columns turn into floats')
+            return
+    rep.holds('int before float', fd, 'float(text) is reached only behind the int(text) attempt / the is_int flag ({} float site(s))'.format(len(floats)))
+    # the handler starts with string detection pending and, for the aggregates whose result is an input value or an integer sum,
+    # in integer mode (otherwise every integer column goes through float: 6.0 for 6, rounding above 2**53)
+    init = [m for m in cls.body if isinstance(m, ast.FunctionDef) and m.name == '__init__']
+    if init:
+        consts = {dotted(n.targets[0]): n.value for n in walk_no_nested(init[0]) if isinstance(n, ast.Assign) and len(n.targets) == 1 and dotted(n.targets[0])}
+        for attr in ('self.string_detection_done', 'self.is_str'):
+            v = consts.get(attr)
+            if v is None:
+                continue
+            rep.decide(isinstance(v, ast.Constant) and v.value is False, 'initial ' + attr, v, 'starts False', '`{}` starts as `{}`: the first value is then never examined, so numeric strings are never converted (MIN/MAX compare text, SUM fails)'.format(attr, node_text(v, 20)))
+        ip = init[0].args.args[1].arg if len(init[0].args.args) > 1 else None
+        v = consts.get('self.is_int')
+        if ip and v is not None:
+            rep.decide(is_name(v, ip), 'initial self.is_int', v, 'integer mode is what the aggregator asks for', 'integer mode is initialised with `{}` instead of the constructor argument'.format(node_text(v, 20)))
+    n_exact = 0
+    for cname in ('MinAggregator', 'MaxAggregator', 'SumAggregator', 'MedianAggregator'):
+        c = p.cls('rbql_engine', cname, required=False)
+        if c is None:
+            continue
+        ctors = [x for x in ast.walk(c) if isinstance(x, ast.Call) and dotted(x.func) == 'NumHandler' and x.args]
+        for x in ctors:
+            n_exact += 1
+            a0 = x.args[0]
+            if isinstance(a0, ast.Constant) and a0.value is False:
+                rep.violated(cname + ' integer mode', x, '{} creates its NumHandler with start_with_int=False: integer columns are parsed as floats, so results are printed as 6.0 and lose exactness above 2**53'.format(cname))
+            elif isinstance(a0, ast.Constant) and a0.value is True:
+                rep.holds(cname + ' integer mode', x, 'integer strings stay ints')
+            else:
+                rep.undecided(cname + ' integer mode', x, 'start_with_int argument `{}` not constant'.format(node_text(a0, 30)))
+    rep.require_count('exact aggregators with a NumHandler', n_exact, 4, cls)
